@@ -231,7 +231,10 @@ def handle (j : Json) : Json :=
     if !conv then
       (if extra && !missing && invalidPresent then "invalid-rewrite-keeps-previous"
        else if extra && missing then "extra-and-missing" else if extra then "extra-active"
-       else if missing then "missing-active" else "duplicate-active")
+       else if missing then "missing-active"
+       else if (match obsB with | some (a, b) => a.length + b.length | none => 0) < exp0.length + exp1.length
+         then "missing-active"   -- one of several files with byte-identical content is not active
+       else "duplicate-active")
     else if !startupOk then "startup-order" else ""
   -- ---------------- accepts: model
   let (accepts, how, modelOut) :=
